@@ -44,6 +44,8 @@ class World(object):
         self.net.poll_shuffle = cfg.get('poll_shuffle', False)
         self.net.short_write = cfg.get('short_write', False)
         self.net.blocked = self.blocked
+        self.net.poller_kind = cfg.get('poller', 'sim')
+        self.net.fd_reuse = bool(cfg.get('fd_reuse', False))
         self.net_rng = random.Random(seed * 7919 + 17)
         self.hosts = []
         self.groups = None           # host idx -> partition group, or None
